@@ -338,10 +338,11 @@ Definition bm_last := bm_last_gen false.
 Definition bm_last_unset := bm_last_gen true.
 
 Definition bm_next_gen (neg : bool) (r : repr) (prev_cpu : Z) : Z :=
-  (* unsigned i = HWLOC_SUBBITMAP_INDEX(prev_cpu + 1): int division, then conversion *)
-  let i0 := to_unsigned (Z.quot (prev_cpu + 1) 64) in
+  (* unsigned next_cpu = (unsigned) prev_cpu + 1; unsigned i = HWLOC_SUBBITMAP_INDEX(next_cpu) *)
+  let next_cpu := to_unsigned (prev_cpu + 1) in
+  let i0 := SUB_INDEX next_cpu in
   if count r <=? i0 then
-    (if Bool.eqb (infinite r) (negb neg) then (prev_cpu + 1)%Z else (-1)%Z)
+    (if Bool.eqb (infinite r) (negb neg) then to_int next_cpu else (-1)%Z)
   else
   dflt
     (orelse (for_find i0 (count r) (fun i =>
